@@ -364,6 +364,28 @@ class Rewriter:
         self.hit('W6r', n)
         return text
 
+    # ---- W6d: `for X in E {` over poster's DecodeIter -> the language's own desugaring of `for` ---------------
+    def w6d(self, text):
+        """`for PAT in EXPR { BODY }` -> `let mut it__ = EXPR; loop { let PAT = match it__.next() { Some(v__) => v__,
+        None => break }; BODY }` (applied to loops whose iterated expression mentions `.iter::<`, i.e. Decoder::iter)"""
+        n = 0
+        while True:
+            m = mask(text)
+            mm = None
+            for cand in re.finditer(r'\bfor\s+(\w+)\s+in\s+([^{;]*?\.iter::<[^{;]*?|\w*iterator\w*)\s*\{', m):
+                mm = cand
+                break
+            if not mm:
+                break
+            pat = mm.group(1)
+            expr = text[mm.start(2):mm.end(2)].strip()
+            ob = mm.end() - 1
+            text = (text[:mm.start()] + 'let mut it__%d = %s;\n        loop {\n            let %s = match it__%d.next() { Some(v__) => v__, None => break };'
+                    % (n, expr, pat, n) + text[ob + 1:])
+            n += 1
+        self.hit('W6d', n)
+        return text
+
     # ---- W6p: Iterator::position over `.iter()` -> index loop (std definition of `position`) ---------
     def w6p(self, text):
         m = mask(text)
